@@ -42,6 +42,9 @@ def main():
     if cmd == "manifest":
         from harness import mkmanifest
         return mkmanifest.main()
+    if cmd == "design":
+        from harness import mkdesign
+        return mkdesign.main()
     prop = cmd.upper()
     tier = sys.argv[2] if len(sys.argv) > 2 else os.environ.get("VERIF_TIER", "quick")
     seed = int(os.environ.get("VERIF_SEED", "20260930"))
